@@ -3,7 +3,8 @@ import ast
 
 from sa.algebra import Evaluator, Facts, Poly, SymExec, Undecided
 from sa.calls import bind
-from sa.common import resolved_calls
+from sa.common import expand_name, resolved_calls
+from sa.defuse import DefUse
 from sa.defuse import loc_name
 from sa.model import AnalysisError, AnchorMissing, src, walk_function
 from sa.struct import call_name, find
@@ -99,3 +100,117 @@ def ind2save_call_ratios(repo, process_q):
         et = b.bound.get("etype", callee.defaults().get("etype"))
         out.append((c, r, et.value if isinstance(et, ast.Constant) else None, b))
     return fi, out
+
+
+# ------------------------------------------------------------------------------------------------ window-state coherence
+def _loop_carried(du, loop: ast.For, at_node, expr) -> list:
+    """Names read by `expr` (evaluated at CFG node at_node, inside the body of `loop`) that can hold a value assigned in an EARLIER
+    iteration: a definition inside the loop body that reaches at_node only through the loop header."""
+    cfg = du.cfg
+    header = cfg.node_for(loop)
+    body_ids = set()
+    for st in loop.body:
+        for sub in ast.walk(st):
+            n = cfg.by_stmt.get(id(sub))
+            if n is not None:
+                body_ids.add(n.id)
+    out = []
+    for nm in {n.id for n in ast.walk(expr) if isinstance(n, ast.Name)}:
+        for d in du.reaching_at(at_node, nm):
+            if d.node is None or d.node.id not in body_ids or d.kind == "mutate":
+                continue
+            if d.node.id == at_node.id or not cfg.reachable(d.node, at_node, avoid=[header]):
+                out.append((nm, d))
+    return out
+
+
+def window_state_rule(ctx, rule_id: str):
+    """_ind2save decides first / last window from the generator's own counter (wg.iw), which `firstlast` advances as it is iterated.
+    The data handed to _ind2save must therefore belong to the window the generator is currently on: the call sits in the body of the
+    loop that iterates wg.firstlast (directly, or through a generator helper that yields inside that loop) and receives nothing that
+    was read in an earlier iteration."""
+    ctx.rule(rule_id, "the chunk handed to _ind2save belongs to the window wg.firstlast is currently on (no look-ahead / carried-over window: "
+                      "_ind2save reads wg.iw to recognise the first and last window)")
+    repo = ctx.repo
+    ind = repo.fn(CLS + "._ind2save")
+    uses_iw = any(isinstance(n, ast.Attribute) and n.attr == "iw" for n in ast.walk(ind.node))
+    if not uses_iw:
+        ctx.note("_ind2save no longer reads the generator's window counter: window-state coherence holds trivially")
+        return
+    n = 0
+    for q in (CLS + "._process_NP24", CLS + "._process_NP21"):
+        fi = repo.fn(q)
+        du = DefUse(fi.node)
+        cfg = du.cfg
+        parents = {}
+        for p in ast.walk(fi.node):
+            for c in ast.iter_child_nodes(p):
+                parents[id(c)] = p
+        for call in resolved_calls(repo, fi, CLS + "._ind2save"):
+            n += 1
+            cur, loop = call, None
+            while id(cur) in parents:
+                cur = parents[id(cur)]
+                if isinstance(cur, (ast.For, ast.While)):
+                    loop = cur
+                    break
+            if loop is None or not isinstance(loop, ast.For):
+                ctx.violation(fi, call, call, "_ind2save is not called from the body of the loop over the generator's windows: wg.iw no longer identifies the window being saved",
+                              key="ws-loop:" + q, name_free=True)
+                continue
+            it = expand_name(du, loop.iter, loop)
+            at = cfg.node_for(call)
+            b = bind(call, ind)
+            data_args = [v for k, v in b.bound.items() if k not in ("self", "wg", "ratio", "etype")]
+            carried = []
+            for a in data_args:
+                carried += _loop_carried(du, loop, at, a)
+            if carried:
+                nm, d = carried[0]
+                ctx.violation(fi, call, call, f"`{nm}` handed to _ind2save was assigned in an earlier iteration (line {d.lineno}): the generator has moved on, wg.iw is one window ahead "
+                              f"of the data, so the first / last window trimming is applied to the wrong window", key="ws-carried:" + q, name_free=True)
+                continue
+            if isinstance(it, ast.Attribute) and it.attr == "firstlast":
+                ctx.ok(fi, call, call, "called in the iteration of wg.firstlast that produced the window", key="ws:" + q)
+                continue
+            gq = repo.resolve_call(fi, it) if isinstance(it, ast.Call) else None
+            if gq in repo.functions and any(isinstance(x, (ast.Yield, ast.YieldFrom)) for x in ast.walk(repo.functions[gq].node)):
+                g = repo.functions[gq]
+                gdu = DefUse(g.node)
+                gcfg = gdu.cfg
+                gpar = {}
+                for p in ast.walk(g.node):
+                    for c in ast.iter_child_nodes(p):
+                        gpar[id(c)] = p
+                bad = None
+                nyield = 0
+                for y in [x for x in ast.walk(g.node) if isinstance(x, ast.Yield)]:
+                    nyield += 1
+                    cur, yl = y, None
+                    while id(cur) in gpar:
+                        cur = gpar[id(cur)]
+                        if isinstance(cur, ast.For) and isinstance(cur.iter, ast.Attribute) and cur.iter.attr == "firstlast":
+                            yl = cur
+                            break
+                    if yl is None:
+                        # after the loop: the generator is exhausted and sits on its last window; accepted when the value comes from the loop body
+                        continue
+                    if y.value is None:
+                        continue
+                    yc = _loop_carried(gdu, yl, gcfg.node_for(y), y.value)
+                    if yc:
+                        bad = (y, yc[0])
+                        break
+                if nyield == 0:
+                    raise AnalysisError(f"{gq}: no yield found")
+                if bad:
+                    y, (nm, d) = bad
+                    ctx.violation(g, y, y, f"`{nm}` yielded here was assigned in an earlier iteration of the loop over wg.firstlast (line {d.lineno}): the generator has already advanced "
+                                  f"(wg.iw is one window ahead) when {q.rsplit('.', 1)[-1]} hands this window to _ind2save - first / last window trimming hits the wrong window, the stream "
+                                  f"is shifted by the taper margin and depends on the window size", key="ws-lookahead:" + q, name_free=True)
+                else:
+                    ctx.ok(g, g.node, f"{gq} yields inside its own iteration of firstlast", "helper generator yields the window firstlast is on", key="ws:" + q)
+                continue
+            raise AnalysisError(f"{q}: the loop around _ind2save iterates `{src(it)[:80]}` - not wg.firstlast nor a generator helper of the repository")
+    if n == 0:
+        raise AnchorMissing("no _ind2save call found in _process_NP24 / _process_NP21")
